@@ -2,22 +2,22 @@ import Spydr.IR.SepOps0
 namespace Spydr.IR
 
 set_option maxHeartbeats 1600000 in
-theorem sep_removeLibrariesFrom (s : S) (off n ls) : Sep s off → (Op.removeLibrariesFrom n ls).above off →
-    Sep (step s (.removeLibrariesFrom n ls)).1 off ∧ LowEq (step s (.removeLibrariesFrom n ls)).1 s off := by sep_op
+theorem sep_removeLibrariesFrom (s : S) (R : OId → Prop) (n ls) : Sep s R → (Op.removeLibrariesFrom n ls).inside R →
+    Sep (step s (.removeLibrariesFrom n ls)).1 R ∧ OutEq (step s (.removeLibrariesFrom n ls)).1 s R := by sep_op
 set_option maxHeartbeats 1600000 in
-theorem sep_addPort (s : S) (off d p pos veto) : Sep s off → (Op.addPort d p pos veto).above off →
-    Sep (step s (.addPort d p pos veto)).1 off ∧ LowEq (step s (.addPort d p pos veto)).1 s off := by sep_op
+theorem sep_addPort (s : S) (R : OId → Prop) (d p pos veto) : Sep s R → (Op.addPort d p pos veto).inside R →
+    Sep (step s (.addPort d p pos veto)).1 R ∧ OutEq (step s (.addPort d p pos veto)).1 s R := by sep_op
 set_option maxHeartbeats 1600000 in
-theorem sep_removeCablesFrom (s : S) (off d cs) : Sep s off → (Op.removeCablesFrom d cs).above off →
-    Sep (step s (.removeCablesFrom d cs)).1 off ∧ LowEq (step s (.removeCablesFrom d cs)).1 s off := by sep_op
+theorem sep_removeCablesFrom (s : S) (R : OId → Prop) (d cs) : Sep s R → (Op.removeCablesFrom d cs).inside R →
+    Sep (step s (.removeCablesFrom d cs)).1 R ∧ OutEq (step s (.removeCablesFrom d cs)).1 s R := by sep_op
 set_option maxHeartbeats 1600000 in
-theorem sep_addPin (s : S) (off p q pos) : Sep s off → (Op.addPin p q pos).above off →
-    Sep (step s (.addPin p q pos)).1 off ∧ LowEq (step s (.addPin p q pos)).1 s off := by sep_op
+theorem sep_addPin (s : S) (R : OId → Prop) (p q pos) : Sep s R → (Op.addPin p q pos).inside R →
+    Sep (step s (.addPin p q pos)).1 R ∧ OutEq (step s (.addPin p q pos)).1 s R := by sep_op
 set_option maxHeartbeats 1600000 in
-theorem sep_removeWiresFrom (s : S) (off c ws) : Sep s off → (Op.removeWiresFrom c ws).above off →
-    Sep (step s (.removeWiresFrom c ws)).1 off ∧ LowEq (step s (.removeWiresFrom c ws)).1 s off := by sep_op
+theorem sep_removeWiresFrom (s : S) (R : OId → Prop) (c ws) : Sep s R → (Op.removeWiresFrom c ws).inside R →
+    Sep (step s (.removeWiresFrom c ws)).1 R ∧ OutEq (step s (.removeWiresFrom c ws)).1 s R := by sep_op
 set_option maxHeartbeats 1600000 in
-theorem sep_setWirePins (s : S) (off w rs) : Sep s off → (Op.setWirePins w rs).above off →
-    Sep (step s (.setWirePins w rs)).1 off ∧ LowEq (step s (.setWirePins w rs)).1 s off := by sep_op
+theorem sep_setWirePins (s : S) (R : OId → Prop) (w rs) : Sep s R → (Op.setWirePins w rs).inside R →
+    Sep (step s (.setWirePins w rs)).1 R ∧ OutEq (step s (.setWirePins w rs)).1 s R := by sep_op
 
 end Spydr.IR
